@@ -120,9 +120,9 @@ func (h *hist) initialCmd(l int, joiners []int, mut string) *pdkg.DKGCommand {
 }
 
 type reshareSpec struct {
-	leader                       int
+	leader                      int
 	remaining, leaving, joining []int
-	thr                          uint32
+	thr                         uint32
 }
 
 func (h *hist) reshareSpec() reshareSpec {
